@@ -293,8 +293,11 @@ class Machine:
         elif op == "connect4":
             t = st["t"]
             sim.ask("thread %d %d %d %d" % (t["pid"], t["tid"], t["uid"], t["gid"]))
-            r = sim.ask("connect4 %s %s %d %d %d" % (ip_hex(st["ip"]), ctx_port_hex(st["port"]), st["proto"], AF_INET,
-                                                    1 if st["proto"] == TCP else 2 if st["proto"] == 17 else 3))
+            # st["bound"]: the client bound its socket to a local address before connecting (curl --interface, a
+            # configured source address); where a listed connect is diverted to does not depend on it
+            r = sim.ask("connect4 %s %s %d %d %d%s" % (ip_hex(st["ip"]), ctx_port_hex(st["port"]), st["proto"], AF_INET,
+                                                      1 if st["proto"] == TCP else 2 if st["proto"] == 17 else 3,
+                                                      " " + ip_hex(st["bound"]) if st.get("bound") else ""))
             achg, agone, local = self._after(r)
             oip, oport = hex_ip(r["ip"]), small(ctx_port_val(r["port"]))
             if st["proto"] == TCP:
@@ -653,7 +656,10 @@ def random_run(rnd, consts, cap, *, same_ids, big=None, nsteps=80):
         listed.add(d)
 
     def c4(t, d, proto):
-        steps.append({"op": "connect4", "t": t, "ip": d[0], "port": d[1], "proto": proto})
+        st = {"op": "connect4", "t": t, "ip": d[0], "port": d[1], "proto": proto}
+        if rnd.random() < 0.25:
+            st["bound"] = rnd.choice(["10.0.0.4", "127.0.0.1", "172.16.5.9", "10.0.0.4"])
+        steps.append(st)
         if proto == TCP:
             pending[(t["pid"], t["tid"])] = (t, d)
 
